@@ -42,6 +42,7 @@ from ..tools.hybrids import SequenceSet, qset
 from ..tools.linked import linqset
 from ..tools.timing import Counter, StopWatch
 from . import RuleMeta, TableauMeta
+from .. import _verif
 from .common import Branch, Node, Target
 
 if TYPE_CHECKING:
@@ -194,6 +195,8 @@ class Rule(EventEmitter, metaclass=RuleMeta):
                     targets = deque(targets)
                     if not targets:
                         return
+                if _verif.ENABLED and _verif.scheduler is not None:
+                    targets = _verif.scheduler(self, branch, targets)
                 self._extend_targets(targets)
                 return self._select_best_target(targets)
 
